@@ -66,6 +66,11 @@ def dim_of(run: Run, v: Value, domain: Tuple[float, float]) -> Dim:
     elif f.truth is False:
         d.lo = max(d.lo, 0)
         d.hi = min(d.hi, 0)
+    # excluded end points tighten the interval (x in [0,1], x != 0  =>  x == 1)
+    while d.lo != -INF and d.lo <= d.hi and d.lo in d.excl:
+        d.lo += 1
+    while d.hi != INF and d.hi >= d.lo and d.hi in d.excl:
+        d.hi -= 1
     return d
 
 
